@@ -53,6 +53,10 @@ def small_recipes():
     }
     for ri, target in enumerate(REDIRECTS):
         contents[f"redirect{ri}"] = (lambda m, st, h, target=target: m.RedirectResponse(target, 307 if st == 200 else st, h))
+    # the target as a URL object (what `request.url.replace(...)` hands over), with text outside Latin-1 in path and query
+    from baize.datastructures import URL as _URL
+    for ri, target in enumerate(("https://example.com/\u8def\u5f84/caf\u00e9?q=\u5024#\u00fc", "/rel/\u4e2d", "http://h/p")):
+        contents[f"redirect-url{ri}"] = (lambda m, st, h, target=target: m.RedirectResponse(_URL(target).replace(fragment=""), 307 if st == 200 else st, h))
     for (cname, build), st, (hi, h), (ci, cookies) in itertools.product(contents.items(), STATUSES, enumerate(HEADER_SETS), enumerate(COOKIE_SETS)):
         def make(m, build=build, st=st, h=h, cookies=cookies):
             r = build(m, st, dict(h) if h else None)
